@@ -496,6 +496,16 @@ impl<B: Bound> Intervals<B> {
             intervals: vec![],
         }
     }
+    /// An arbitrary representation (the caller is responsible for the invariant: sorted, disjoint, min <= max).
+    pub fn verif_from_raw(capacity: usize, intervals: Vec<[B; 2]>) -> Intervals<B> {
+        Intervals {
+            capacity,
+            intervals,
+        }
+    }
+    pub fn verif_capacity(&self) -> usize {
+        self.capacity
+    }
 }
 
 impl<B: Bound> Default for Intervals<B> {
